@@ -135,6 +135,15 @@ class Report:
         self.not_decided = []
         self.alias = {}
         self.suffix = ''
+        self.broken = []      # anchors lost inside one rule: the other rules still run (see run_check)
+
+    def guard(self, fn, *a, **k):
+        """run one rule; a lost anchor in it must not keep the remaining rules from reporting what they see"""
+        try:
+            return fn(*a, **k)
+        except Broken as b:
+            self.broken.append(b)
+            return None
 
     def rule(self, rid, desc, floor=None):
         r = Rule(self, rid + self.suffix, desc, floor)
@@ -175,6 +184,8 @@ def run_check(prop, fn, tier, repo, explanation, assumptions, not_decided):
             rep.suffix = ''
             rep.tier = tier
         floor_msgs = [m for m in (r.finish() for r in rep.rules) if m]
+        # an anchor lost in one rule counts like a floor shortfall: it breaks the check unless another rule reports a violation
+        floor_msgs += ['%s %s' % (b.kind, b.msg) for b in rep.broken]
     except Broken as b:
         print('CHECK-BROKEN property=%s reason=%s %s' % (prop, b.kind, b.msg))
         try:
@@ -197,7 +208,7 @@ def run_check(prop, fn, tier, repo, explanation, assumptions, not_decided):
         # a violation on this tree, in which case the violation is the more useful answer
         has_new = any((key not in known and key.replace('@rel', '') not in known) for r in rep.rules for (key, _, _) in r.violations)
         if not has_new:
-            print('CHECK-BROKEN property=%s reason=floor %s' % (prop, '; '.join(floor_msgs)))
+            print('CHECK-BROKEN property=%s reason=%s' % (prop, '; '.join(floor_msgs) if rep.broken else 'floor ' + '; '.join(floor_msgs)))
             try:
                 os.remove(ev_path)
             except OSError:
